@@ -35,6 +35,7 @@ ASSUMES = [
 SIG_F14 = 'C17:free_all-skips-last-buffer-of-each-block'
 SIG_F15 = 'C17:second-Buffer.free-sends-b_free-None'
 SIG_CUE = 'C17:Buffer.cue-argument-order'
+SIG_DICT = 'C17:dict-argument-embedded-with-array-brackets'
 
 SD_NBYTES = [0]      # size of the fixed SynthDef's bytes, reported by the runner (opaque blob in the model)
 CONV_ACTION = {'after': 'addAfter', 'before': 'addBefore', 'head': 'addToHead', 'tail': 'addToTail', 'replace': 'addReplace'}
@@ -358,6 +359,15 @@ def event_msgs(ev):
     return [ev[1]] if ev[0] == 'M' else list(ev[2])
 
 
+def has_embedded_dict(ops):
+    for o in ops:
+        if o['op'] == 'n_set' and any(a['v'] == 'd' for a in o['args']):
+            return True
+        if o['op'] == 'synth' and o['args'] is not None and o['args']['v'] in ('l', 't') and any(a['v'] == 'd' for a in o['args']['x']):
+            return True
+    return False
+
+
 def monitors(h, out, default_group=1):
     """-> list of (signature|None, text) property violations seen on the captured run of a *valid* history."""
     bad = []
@@ -371,6 +381,8 @@ def monitors(h, out, default_group=1):
                     sig = None
                     if m[0] == '/b_read' and any(o['op'] == 'b_cue' for o in ops):
                         sig = SIG_CUE
+                    if m[0] in ('/n_set', '/s_new') and has_embedded_dict(ops):
+                        sig = SIG_DICT
                     bad.append((sig, 'op %d (%s): %s %s does not conform to the command reference: %s' % (i, op['op'], m[0], m[1], r)))
     # M2 id ledger / M3 create / M4 free
     node_known = {0, default_group, -1}
@@ -592,6 +604,10 @@ FIXED_HISTORIES = [
     {'cls': 'valid', 'tags': ['fixed:cue'], 'ops': [
         {'op': 'b_new', 'frames': 32768, 'channels': 2, 'compl': None},
         {'op': 'b_cue', 'b': 0, 'path': '/tmp/a.wav', 'start': 100, 'compl': None}]},
+    {'cls': 'valid', 'tags': ['fixed:dict'], 'ops': [
+        {'op': 'synth', 'ctor': 'init', 'def': 'default', 'args': None, 'target': {'t': 'none'}, 'action': 'addToHead', 'same_id': False},
+        {'op': 'n_set', 'n': 0, 'args': [{'v': 'd', 'x': [[{'v': 's', 'x': 'freq'}, {'v': 'i', 'x': 440}],
+                                                          [{'v': 's', 'x': 'amp'}, {'v': 'l', 'x': [{'v': 'f', 'x': '1/4'}, {'v': 'f', 'x': '1/2'}]}]]}]}]},
     {'cls': 'valid', 'tags': ['fixed:bind'], 'ops': [
         {'op': 'group', 'par': False, 'ctor': 'init', 'target': {'t': 'none'}, 'action': 'addToHead'},
         {'op': 'bind_enter'},
@@ -698,7 +714,7 @@ def refs_ok(ops):
 
 
 def classify(texts):
-    for sig in (SIG_F14, SIG_F15, SIG_CUE):
+    for sig in (SIG_F14, SIG_F15, SIG_CUE, SIG_DICT):
         if any(s == sig for s, _ in texts):
             return sig
     return None
